@@ -17,7 +17,7 @@ theorem addFrame_cases (fs : List (Nat × Frame)) (t0 t1 : Nat) (cur : Option Fr
 set_option maxHeartbeats 4000000 in
 theorem DLog.src (s : Nat) (cl : Client) : ∀ a ∈ srcActs s, ∀ st, a.guard st = true → DUse s st cl → DLog s st cl → DLog s (a.upd st) cl := by
   intro a ha st hg hu h
-  obtain ⟨k1, k2, k3, k4, k5, k6, k7, k8, k9, k10, k11, k12, k13⟩ := hu
+  obtain ⟨k1, k2, k3, k4, k5, k6, k7, k8, k9, k10, k11, k12, k13, k14⟩ := hu
   obtain ⟨d1, d2, d3, d4⟩ := h
   have hn1 := nrd_pos k3
   have hwf := cv_wmap_fail st.sinkCh st.F
@@ -41,10 +41,30 @@ theorem DLog.src (s : Nat) (cl : Client) : ∀ a ∈ srcActs s, ∀ st, a.guard 
     constructor
     all_goals (try simp only [logpos, hs])
     all_goals (first | assumption | ((try simp only [logpos] at *) <;> grind))
+  -- src.abort
+  case inr.inr.inr.inr.inr.inr.inr.inr.inr.inr.inr.inr.inr.inr.inr.inr.inr.inl =>
+    have hsh : srcHold st.src.pc = true := by (have := hg.1; simp_all [srcHold])
+    have hp : (cv st.sinkCh).pending = true := by
+      rcases k7 hsh with h | h
+      · exact h
+      · have := hg.1; rw [h.1] at this; cases this
+    obtain ⟨hok, hcv⟩ := cv_wabort k1 hp
+    constructor
+    all_goals (try simp only [hcv, logpos])
+    all_goals (first | assumption | ((try simp only [logpos] at *) <;> grind))
   -- src.commit
   case inr.inr.inr.inr.inr.inr.inr.inr.inr.inr.inr.inr.inr.inr.inr.inr.inr.inr.inl =>
     have hsh : srcHold st.src.pc = true := by (have := hg.1; simp_all [srcHold])
-    have hp : (cv st.sinkCh).pending = true := k7 hsh
+    by_cases hcn : st.src.cur = none
+    · -- the unmap after an aborted write (empty frame): nothing in flight, nothing changes
+      have hs : (step st.sinkCh Op.wcommit).1 = st.sinkCh := wcommit_idle (k14 hg.1 hcn)
+      constructor
+      all_goals (try simp only [hs, hcn, addFrame, Option.isSome_none, Bool.false_and, Bool.or_false, ite_false, Nat.add_zero, logpos])
+      all_goals (first | assumption | ((try simp only [logpos] at *) <;> grind))
+    have hp : (cv st.sinkCh).pending = true := by
+      rcases k7 hsh with h | h
+      · exact h
+      · exact absurd h.2 hcn
     obtain ⟨hok, hcv⟩ := hcm hp
     have hw := k8 hsh
     have ht : (step st.sinkCh Op.wcommit).1.total = (cv (step st.sinkCh Op.wcommit).1).total := rfl
@@ -82,7 +102,7 @@ set_option maxHeartbeats 4000000 in
 theorem DLog.snk (s : Nat) (cl : Client) (rs : DevState) : ∀ a ∈ snkActs s, ∀ st, a.guard st = true → TInv s st cl rs → DUse s st cl →
     DLog s st cl → DLog s (a.upd st) cl := by
   intro a ha st hg ht hu h
-  obtain ⟨k1, k2, k3, k4, k5, k6, k7, k8, k9, k10, k11, k12, k13⟩ := hu
+  obtain ⟨k1, k2, k3, k4, k5, k6, k7, k8, k9, k10, k11, k12, k13, k14⟩ := hu
   obtain ⟨d1, d2, d3, d4⟩ := h
   have t1 := ht.start_snk; have t3 := ht.joined_snk; have hs8 := stage_le cl.pc s
   have hch := clHolds0_stop cl.pc s
